@@ -119,9 +119,9 @@ PROPS = {
     },
     'C15': {
         'title': 'Async machines behave exactly like their sync counterparts',
-        'level_text': "Proof (C15.runAsync_eq_run, methodProg_async_erase, async_method_eq_sync, async_handle_eq_sync): under every suspension schedule the async expansion of every edge and of handle yields exactly the result, state, data and hook trace of the sync expansion of the same definition; the async branches of the generator add .await to every hook call and nothing else. PARTIAL: the Send clause is not a Lean theorem; it is established by rustc on the probe crates (T4 assert_send). RefineAsyncVeto.async_refines_spec_veto / async_replies_refine and RefineAsyncData.async_cell_refines: with vetoes, with exact replies and with the data cell, the asynchronous machine under any schedule per dispatch refines the same abstract machines as its synchronous expansion. RefineTypedAsync.typed_async_refines_spec: likewise the typestate API of an async machine, every call awaited to completion under any schedule.",
+        'level_text': "Proof (C15.runAsync_eq_run, methodProg_async_erase, async_method_eq_sync, async_handle_eq_sync): under every suspension schedule the async expansion of every edge and of handle yields exactly the result, state, data and hook trace of the sync expansion of the same definition; the async branches of the generator add .await to every hook call and nothing else. PARTIAL: the Send clause is not a Lean theorem; it is established by rustc on the probe crates (T4 assert_send). RefineAsyncVeto.async_refines_spec_veto / async_replies_refine and RefineAsyncData.async_cell_refines: with vetoes, with exact replies and with the data cell, the asynchronous machine under any schedule per dispatch refines the same abstract machines as its synchronous expansion. RefineTypedAsync.typed_async_refines_spec: likewise the typestate API of an async machine, every call awaited to completion under any schedule. RefineEraseAsync.async_conversion_erasure: for arbitrary hooks and any suspension schedule per dispatch, an async machine driven through either API with conversions interleaved ends with the same machine carried (state, context, data) after the same hook trace as the synchronous expansion's wrapper over the same events, or both are ended by a hook panic.",
         'level_note': 'That `.await` runs a hook future to completion before the next statement is the trusted reading of the fragment, validated by T3 susp (random suspension counts per hook, hand-written single-step executor). Ties: T2 regions SIG AB GC BC AC AA HD.',
-        'modules': ['SMV.Props.C15', 'SMV.Props.RefineAsync', 'SMV.Props.RefineAsyncVeto', 'SMV.Props.RefineAsyncData', 'SMV.Props.RefineTypedAsync'],
+        'modules': ['SMV.Props.C15', 'SMV.Props.RefineAsync', 'SMV.Props.RefineAsyncVeto', 'SMV.Props.RefineAsyncData', 'SMV.Props.RefineTypedAsync', 'SMV.Props.RefineEraseAsync'],
         'regions': ['SIG', 'AB', 'GC', 'BC', 'AC', 'AA', 'HD'],
         't3': ['susp', 'abandon'],
         't4': ['send'],
